@@ -1,7 +1,26 @@
 import Pyx12Verif.Props.C02
+import Pyx12Verif.Props.C02Walk
 open Pyx12Verif.Walker
 #print axioms get_incr_same
 #print axioms get_incr_other
 #print axioms get_resetTo_below
 #print axioms get_resetTo_other
 #print axioms forceLoopStart_seg
+
+open Pyx12Verif.WalkerGen
+#print axioms flush_nil
+#print axioms isMatch_hits
+#print axioms hits_overlap
+#print axioms isLoopMatch_false
+#print axioms gotoSegMatch_none
+#print axioms gotoSegMatch_first
+#print axioms scan_skips_nonmatching
+#print axioms chain_match
+#print axioms chain_goto
+#print axioms step_seg
+#print axioms step_loop
+#print axioms step_enter
+#print axioms walk_accepts_flat
+#print axioms walk_accepts_nested
+#print axioms walk_accepts_generated
+#print axioms exDeriv1
